@@ -48,8 +48,11 @@ def soup(rnd, names):
 
 
 def layout_case(seed, nbase, nprefix):
-    rnd = random.Random(seed)
-    m, feats = semgen.layout_module(rnd)
+    rnd = random.Random(seed if not isinstance(seed, tuple) else seed[1] * 31 + seed[2])
+    if isinstance(seed, tuple):  # ("stride-family", k, run seed): see props/c01_views.py
+        m, _plan = C1.stride_family_module(seed[1], seed[2])
+    else:
+        m, feats = semgen.layout_module(rnd)
     text = semgen.module_text(m)
     r = emb.compile_files({"m.emb": text})
     if not r.accepted:
@@ -148,7 +151,7 @@ def run(ctx):
     stats = vlib.Stats()
     rnd = random.Random(ctx.seed * 67867967 + 13)
     n1, n2, n3 = ctx.pick((14, 8, 8), (160, 80, 80))
-    run_group(ctx, stats, [layout_case(rnd.randrange(2**62), ctx.pick(3, 5), ctx.pick(10, 20)) for _ in range(n1)], "lay")
+    run_group(ctx, stats, [layout_case(rnd.randrange(2**62), ctx.pick(3, 5), ctx.pick(10, 20)) for _ in range(n1)] + [layout_case(("stride-family", k, ctx.seed), 3, 10) for k in range(ctx.pick(3, 16))], "lay")
     wcases = []
     for _ in range(n2):
         c = C3.build_case(rnd.randrange(2**62), ctx.pick(120, 300), 0.5)
